@@ -963,6 +963,30 @@ def shape_odd_dir_names():
     }
 
 
+def shape_target_role_change():
+    """A path that the first plan declares static is produced by a step after an edit of the plan, and the
+    rebuild asks for that path as its target: the target is judged by the plan as it is now."""
+    return {
+        "name": "target_role_change",
+        "sources": {"plan.py": ["v1", "v2"], "data.txt": ["a"], "s1.txt": ["a", "b"]},
+        "scripts": {
+            "./plan.py": {
+                "on": "plan.py",
+                "versions": {
+                    "v1": [["static", ["data.txt", "s1.txt"]], ["step", "USE", {"inp": ["data.txt"], "out": ["use.txt"]}]],
+                    "v2": [["static", ["s1.txt"]], ["step", "GEN", {"inp": ["s1.txt"], "out": ["data.txt"]}],
+                           ["step", "USE", {"inp": ["data.txt"], "out": ["use.txt"]}]],
+                },
+            },
+            "GEN": GENERIC_WORKER, "USE": GENERIC_WORKER,
+        },
+        "extra_histories": [
+            [[], {"edits": [["set", "plan.py", "v2"], ["del", "data.txt"]], "cfg": {"targets": ["data.txt"]}}, []],
+            [[], {"edits": [["set", "plan.py", "v2"], ["del", "data.txt"]], "cfg": {"targets": ["use.txt"]}}, {"edits": [], "cfg": {"targets": ["data.txt"]}}],
+        ],
+    }
+
+
 def shape_resources():
     return {
         "name": "resources",
@@ -1022,6 +1046,7 @@ SHAPES = {
         shape_sglob_dirs,
         shape_glob_sub_slash,
         shape_odd_dir_names,
+        shape_target_role_change,
         shape_resources,
     )
 }
